@@ -167,25 +167,259 @@ theorem scanKey_split (buf key rest : Bytes) (h : scanKey buf = .ok (key, rest))
 
 /-! ### scanFields and the rest never answer `panic` -/
 
-theorem checkNumber_noPanic (tok : Bytes) (e : Err) (h : checkNumber tok = .error e) : e.isPanic = false := by
-  unfold checkNumber at h
-  repeat' split at h
-  all_goals first | (cases h; rfl) | cases h
+theorem toErr_noPanic (e : NumErr) : e.toErr.isPanic = false := by cases e <;> rfl
 
 theorem checkBoolean_noPanic (tok : Bytes) (e : Err) (h : checkBoolean tok = .error e) : e.isPanic = false := by
-  unfold checkBoolean at h
-  repeat' split at h
-  all_goals first | (cases h; rfl) | cases h
+  cases e with
+  | panic w =>
+    exfalso
+    unfold checkBoolean at h
+    split at h
+    · cases h
+    · simp only [] at h
+      repeat' split at h
+      all_goals cases h
+  | _ => rfl
 
 theorem finish_noPanic (s : FSt) (rest : Bytes) (e : Err) (h : s.finish rest = .error e) : e.isPanic = false := by
-  unfold FSt.finish at h
-  repeat' split at h
-  all_goals first | (cases h; rfl) | cases h
+  cases e with
+  | panic w =>
+    exfalso
+    unfold FSt.finish at h
+    repeat' split at h
+    all_goals cases h
+  | _ => rfl
 
 theorem consOk_error (b : Nat) (r : Except Err (Bytes × Bytes)) (e : Err) (h : consOk b r = .error e) :
     r = .error e := by
   cases r with
   | error e' => simpa [consOk] using h
   | ok p => obtain ⟨f, r⟩ := p; simp [consOk] at h
+
+theorem scanFieldsM_noPanic (m : FMode) (s : FSt) (buf : Bytes) (e : Err)
+    (h : scanFieldsM m s buf = .error e) : e.isPanic = false := by
+  induction buf generalizing m s with
+  | nil =>
+    cases m with
+    | normal => rw [scanFieldsM] at h; exact finish_noPanic _ _ _ h
+    | skip => rw [scanFieldsM] at h; exact finish_noPanic _ _ _ h
+    | num t =>
+      rw [scanFieldsM] at h
+      split at h
+      · cases h; exact toErr_noPanic _
+      · exact finish_noPanic _ _ _ h
+    | bool t =>
+      rw [scanFieldsM] at h
+      split at h
+      · next e' he => cases h; exact checkBoolean_noPanic _ _ he
+      · exact finish_noPanic _ _ _ h
+  | cons b rest ih =>
+    cases m with
+    | skip => rw [scanFieldsM] at h; exact ih _ _ (consOk_error _ _ _ h)
+    | num t =>
+      rw [scanFieldsM] at h
+      split at h
+      · split at h
+        · cases h; exact toErr_noPanic _
+        · split at h
+          · exact ih _ _ (consOk_error _ _ _ h)
+          · exact finish_noPanic _ _ _ h
+      · exact ih _ _ (consOk_error _ _ _ h)
+    | bool t =>
+      rw [scanFieldsM] at h
+      split at h
+      · split at h
+        · next e' he => cases h; exact checkBoolean_noPanic _ _ he
+        · split at h
+          · exact ih _ _ (consOk_error _ _ _ h)
+          · exact finish_noPanic _ _ _ h
+      · exact ih _ _ (consOk_error _ _ _ h)
+    | normal =>
+      rw [scanFieldsM] at h
+      split at h
+      · exact ih _ _ (consOk_error _ _ _ h)
+      · split at h
+        · exact ih _ _ (consOk_error _ _ _ h)
+        · split at h
+          · simp only [] at h
+            split at h
+            · cases h; rfl
+            · split at h
+              · cases h; rfl
+              · split at h
+                · cases h; rfl
+                · split at h
+                  · cases h; rfl
+                  · split at h
+                    · exact ih _ _ (consOk_error _ _ _ h)
+                    · split at h
+                      · exact ih _ _ (consOk_error _ _ _ h)
+                      · exact ih _ _ (consOk_error _ _ _ h)
+          · split at h
+            · exact finish_noPanic _ _ _ h
+            · exact ih _ _ (consOk_error _ _ _ h)
+
+theorem lastTwo_some (l : Bytes) (h : 2 ≤ l.length) : ∃ p, lastTwo l = some p := by
+  unfold lastTwo
+  have hl : l.reverse.length = l.length := List.length_reverse
+  cases hr : l.reverse with
+  | nil => rw [hr] at hl; simp at hl; omega
+  | cons a t =>
+    cases t with
+    | nil => rw [hr] at hl; simp at hl; omega
+    | cons b t' => exact ⟨(a, b), rfl⟩
+
+theorem skipWhitespace_length_le (l : Bytes) : (skipWhitespace l).length ≤ l.length := by
+  induction l with
+  | nil => simp [skipWhitespace]
+  | cons b r ih => rw [skipWhitespace]; split <;> simp <;> omega
+
+theorem scanFields_noPanic (pre rest : Bytes) (hpre : pre ≠ []) (hr : rest.head? = some cSpace) (e : Err)
+    (h : scanFields pre rest = .error e) : e.isPanic = false := by
+  unfold scanFields at h
+  cases rest with
+  | nil => simp at hr
+  | cons c r =>
+    simp at hr; subst hr
+    have hsk : skipWhitespace (cSpace :: r) = skipWhitespace r := by
+      rw [skipWhitespace]; simp [show isWs cSpace = true from by decide]
+    have hlen := skipWhitespace_length_le r
+    have hws : 1 ≤ (cSpace :: r).length - (skipWhitespace (cSpace :: r)).length := by
+      rw [hsk]; simp only [List.length_cons]; omega
+    obtain ⟨p, hp⟩ := lastTwo_some (pre ++ (cSpace :: r).take ((cSpace :: r).length - (skipWhitespace (cSpace :: r)).length)) (by
+      have : 1 ≤ pre.length := by cases pre with | nil => exact absurd rfl hpre | cons _ _ => simp
+      have h2 : 1 ≤ ((cSpace :: r).take ((cSpace :: r).length - (skipWhitespace (cSpace :: r)).length)).length := by
+        rw [List.length_take]; simp only [List.length_cons] at hws ⊢; omega
+      simp only [List.length_append]; omega)
+    simp only [hp] at h
+    exact scanFieldsM_noPanic _ _ _ _ h
+
+theorem walkFieldsCheck_noPanic (keyLen fuel : Nat) (fields : Bytes) (e : Err)
+    (h : walkFieldsCheck keyLen fuel fields = .error e) : e.isPanic = false := by
+  induction fuel generalizing fields with
+  | zero => simp [walkFieldsCheck] at h
+  | succ n ih =>
+    cases fields with
+    | nil => simp [walkFieldsCheck] at h
+    | cons b r =>
+      unfold walkFieldsCheck at h
+      simp only at h
+      split at h
+      · cases h; rfl
+      · split at h
+        · cases h; rfl
+        · split at h
+          · cases h; rfl
+          · exact ih _ h
+
+theorem scanTimeAux_noPanic (a : Bool) (buf : Bytes) (e : Err) (h : scanTimeAux a buf = .error e) :
+    e.isPanic = false := by
+  induction buf generalizing a with
+  | nil => simp [scanTimeAux] at h
+  | cons b rest ih =>
+    rw [scanTimeAux] at h
+    split at h
+    · cases h
+    · split at h
+      · exact ih _ (consOk_error _ _ _ h)
+      · split at h
+        · cases h; rfl
+        · exact ih _ (consOk_error _ _ _ h)
+
+theorem scanKey_noPanic (buf : Bytes) (e : Err) (h : scanKey buf = .error e) : e.isPanic = false := by
+  unfold scanKey at h
+  split at h
+  · cases h; rfl
+  · cases h; rfl
+  · cases h
+  · next name r0 hm =>
+    unfold scanKeyTags at h
+    cases hst : scanTags (r0.length + 1) r0 with
+    | error e' => rw [hst] at h; cases h; exact scanTags_noPanic _ _ (by omega) _ hst
+    | ok p =>
+      obtain ⟨raws, rest'⟩ := p
+      rw [hst] at h
+      simp only at h
+      obtain ⟨kvs, rfl, _, hks, hrest, _⟩ := scanTags_shape _ _ _ _ hst
+      split at h
+      · cases h; rfl
+      · split at h
+        · next e' he =>
+          cases h
+          -- checkSorted only fails with "duplicate tags"
+          have : ∀ (l : List Bytes) (e : Err), checkSorted l = .error e → e.isPanic = false := by
+            intro l
+            induction l with
+            | nil => intro e h; simp [checkSorted] at h
+            | cons a rest ih =>
+              intro e h
+              cases rest with
+              | nil => simp [checkSorted] at h
+              | cons b r =>
+                rw [checkSorted] at h
+                split at h
+                · cases h
+                · cases h; rfl
+                · exact ih _ h
+          exact this _ _ he
+        · cases h
+        · unfold scanKeySort at h
+          have hshape : ∀ s ∈ insertionSort (fun a b => cmpBytes (rawTagKey a) (rawTagKey b) == .lt)
+              (tagSuffixes (kvs.map kvText) rest'), SuffixShape s := by
+            intro s hs'
+            exact tagSuffixes_shape kvs rest' hks hrest s ((mem_insertionSort _ _ s).mp hs')
+          obtain ⟨kvl, m1, _, _⟩ := mapM_scanToSpaceOr _ hshape
+          rw [m1] at h
+          simp only at h
+          split at h
+          · cases h; rfl
+          · cases h
+
+/-- **no modelled panic**: `parsePoint` never answers with one of the out-of-range outcomes
+    (`scanTags` index growth, `scanToSpaceOr`, `scanFields` look-behind) -/
+theorem parsePoint_noPanic (line : Bytes) (dt : Int) (prec : String) (e : Err)
+    (h : parsePoint line dt prec = .error e) : e.isPanic = false := by
+  unfold parsePoint at h
+  cases hk : scanKey line with
+  | error e' => rw [hk] at h; cases h; exact scanKey_noPanic _ _ hk
+  | ok p =>
+    obtain ⟨key, rest⟩ := p
+    rw [hk] at h
+    simp only at h
+    obtain ⟨X, hX, hsplit, hhead⟩ := scanKey_split _ _ _ hk
+    split at h
+    · cases h; rfl
+    · split at h
+      · cases h; rfl
+      · have hpre : (skipWhitespace line).take ((skipWhitespace line).length - rest.length) ≠ [] := by
+          rw [hsplit]
+          have : (X ++ rest).length - rest.length = X.length := by simp
+          rw [this, List.take_left']
+          · exact hX
+          · rfl
+        split at h
+        · next e' hf => cases h; exact scanFields_noPanic _ _ hpre hhead _ hf
+        · split at h
+          · cases h; rfl
+          · split at h
+            · next e' hw => cases h; exact walkFieldsCheck_noPanic _ _ _ _ hw
+            · split at h
+              · next e' ht =>
+                cases h
+                unfold scanTime at ht
+                exact scanTimeAux_noPanic _ _ _ ht
+              · split at h
+                · cases h
+                · split at h
+                  · cases h; rfl
+                  · split at h
+                    · next e' hs =>
+                      cases h
+                      unfold safeCalcTime at hs
+                      repeat' split at hs
+                      all_goals first | (cases hs; rfl) | cases hs
+                    · split at h
+                      · cases h
+                      · cases h; rfl
 
 end Influx.LP
